@@ -65,6 +65,7 @@ type world struct {
 	BadUTF8 bool       `json:"invalid_utf8_group"`
 	Dups    int        `json:"ids_in_two_fractions"`
 	Span    uint64     `json:"-"`
+	TextQuery bool     `json:"-"`
 }
 
 var fields = []string{"m", "g", "h", "v"}
@@ -103,6 +104,37 @@ func exactValue(r *rng.R, k int64) string {
 	return s
 }
 
+var textWords = []string{"alpha", "beta", "gamma", "delta"}
+
+// genID: request IDs as the proxy makes them (uuid.New().String(): 8-4-4-4-12 hex digits), with every
+// final hex digit covered over consecutive worlds, plus client-chosen IDs that end in a letter of
+// "info" or contain "info". (IDs with '.' are not supported by the store: fracNameFromQPRPath.)
+func genID(r *rng.R, idx int) string {
+	const hexd = "0123456789abcdef"
+	b := make([]byte, 32)
+	for i := range b {
+		b[i] = hexd[r.Intn(16)]
+	}
+	b[12] = '4'
+	u := fmt.Sprintf("%s-%s-%s-%s-%s", b[0:8], b[8:12], b[12:16], b[16:20], b[20:32])
+	switch c := idx % 22; {
+	case c < 16:
+		return u[:len(u)-1] + string(hexd[c])
+	case c == 16:
+		return "job-" + u[:8] + "-i"
+	case c == 17:
+		return "job-" + u[:8] + "n"
+	case c == 18:
+		return "job-" + u[:8] + "-fino"
+	case c == 19:
+		return "info-" + u[:8] + "-info"
+	case c == 20:
+		return u[:len(u)-3] + "fff"
+	default:
+		return "req_info_" + u[:13]
+	}
+}
+
 func genWorld(seed uint64, idx int) *world {
 	r := rng.New(seed*1000003 + uint64(idx)*7919 + 19)
 	w := &world{Idx: idx}
@@ -111,6 +143,7 @@ func genWorld(seed uint64, idx int) *world {
 	if idx%16 == 9 {
 		nf = 0 // the replica holds no matching fraction: the request is done at once
 	}
+	r2 := rng.New(seed*2654435761 + uint64(idx)*40503 + 5)
 	span := uint64(r.Range(1, 3000))
 	w.Span = span
 	rid := uint64(r.Intn(1000))
@@ -156,17 +189,46 @@ func genWorld(seed uint64, idx int) *world {
 				lim := int64(1) << uint(r.Range(3, 14))
 				d.Tokens = append(d.Tokens, "v:"+exactValue(r, int64(r.Intn(int(2*lim+1)))-lim))
 			}
+			// a text-mapped field (one token per word) and a path-mapped field (one token per prefix)
+			if !r2.Chance(1, 6) {
+				seen := map[string]bool{}
+				for i, nw := 0, r2.Range(1, 3); i < nw; i++ {
+					if wd := rng.Pick(r2, textWords); !seen[wd] {
+						seen[wd] = true
+						d.Tokens = append(d.Tokens, "t:"+wd)
+					}
+				}
+			}
+			if r2.Chance(1, 2) {
+				pth := ""
+				for i, np := 0, r2.Range(1, 3); i < np; i++ {
+					pth += "/" + rng.Pick(r2, []string{"api", "v1", "users"})
+					d.Tokens = append(d.Tokens, "p:"+pth)
+				}
+			}
 			ds = append(ds, d)
 		}
 		all = append(all, ds...)
 		w.Fracs = append(w.Fracs, ds)
 		w.Sealed = append(w.Sealed, fi < nf-1 || r.Bool())
 	}
-	s := searchSpec{ID: fmt.Sprintf("5f2c9a0e-%04d-4c19-8000-%012d", idx%10000, seed%1000000000000), Query: "m:1",
-		Fields: fields, From: 0, To: 1 << 40, Limit: 1<<31 - 1}
+	s := searchSpec{ID: genID(r2, idx), Query: "m:1",
+		Fields: fields, TextFields: []string{"t"}, PathFields: []string{"p"}, From: 0, To: 1 << 40, Limit: 1<<31 - 1}
 	if r.Chance(1, 3) {
 		s.Query = "m:1 or m:0"
 	}
+	// queries whose meaning depends on the mapping: several words on the text field are a conjunction
+	switch r2.Intn(5) {
+	case 0:
+		a, b := rng.Pick(r2, textWords), rng.Pick(r2, textWords)
+		s.Query = fmt.Sprintf(`t:"%s %s"`, a, b)
+	case 1:
+		a, b := rng.Pick(r2, textWords), rng.Pick(r2, textWords)
+		s.Query = fmt.Sprintf(`(%s) and t:"%s %s"`, s.Query, a, b)
+	case 2:
+		s.Query = fmt.Sprintf(`(%s) or (t:"%s %s" and p:"/api")`, s.Query, rng.Pick(r2, textWords), rng.Pick(r2, textWords))
+	}
+	w.TextQuery = strings.Contains(s.Query, "t:")
 	if r.Chance(1, 4) && nf > 0 {
 		a, b := midBase+uint64(r.Intn(int(span)+1)), midBase+uint64(r.Intn(int(span)+1))
 		if a > b {
@@ -627,7 +689,7 @@ func (w *world) newDocs(cp crashPoint) *ingest {
 	n := r.Range(1, 4)
 	for i := 0; i < n; i++ {
 		d := hexDoc{MID: lo + uint64(r.Intn(int(hi-lo)+1)), RID: 900000 + cp.IngestSeed%1000*10 + uint64(i)}
-		for _, t := range []string{"m:1", "g:" + rng.Pick(r, groupVals[:6]), "h:" + rng.Pick(r, groupVals[:5]), "v:" + exactValue(r, int64(r.Intn(200))-100)} {
+		for _, t := range []string{"m:1", "t:alpha", "t:beta", "t:gamma", "t:delta", "p:/api", "g:" + rng.Pick(r, groupVals[:6]), "h:" + rng.Pick(r, groupVals[:5]), "v:" + exactValue(r, int64(r.Intn(200))-100)} {
 			d.Tokens = append(d.Tokens, hex.EncodeToString([]byte(t)))
 		}
 		ing.docs = append(ing.docs, d)
@@ -970,8 +1032,8 @@ func runWorld(seed uint64, idx int, tier string, only [][]crashPoint) (res *resu
 			}
 		}
 	}
-	wterm := fmt.Sprintf("{| w_fs := %s; w_hi := %d; w_rev := %s; w_limit := %d; w_naggs := %d%%nat; w_per := [%s]; w_sync := %s |}",
-		casefile.NList(fs), w.Spec.Hist, casefile.Bool(w.Spec.Reverse), w.Spec.Limit, len(w.Spec.Aggs),
+	wterm := fmt.Sprintf("{| w_id := %s; w_fs := %s; w_hi := %d; w_rev := %s; w_limit := %d; w_naggs := %d%%nat; w_per := [%s]; w_sync := %s |}",
+		casefile.Bytes([]byte(w.Spec.ID)), casefile.NList(fs), w.Spec.Hist, casefile.Bool(w.Spec.Reverse), w.Spec.Limit, len(w.Spec.Aggs),
 		strings.Join(per, "; "), bt.qprCoq(run0.sync.QPR))
 	nontriv := len(p.names) >= 2 && (w.Spec.Hist > 0 || len(w.Spec.Aggs) > 0)
 	res.counts = append(res.counts, fmt.Sprintf("fractions:%d", len(p.names)))
@@ -987,6 +1049,10 @@ func runWorld(seed uint64, idx int, tier string, only [][]crashPoint) (res *resu
 	if w.Spec.Limit < 100 {
 		res.counts = append(res.counts, "world:small-limit")
 	}
+	if w.TextQuery {
+		res.counts = append(res.counts, "world:query-depends-on-mapping")
+	}
+	res.counts = append(res.counts, "request-id-ends-with:"+w.Spec.ID[len(w.Spec.ID)-1:])
 
 	ops0, marks0, bad0 := p.ops(run0.tr)
 	for _, b := range bad0 {
